@@ -1130,6 +1130,15 @@ pub struct Fs {
     /// and bypass the page cache without plumbing the per-`File`
     /// `direct_io` flag through the kernel-shaped API.
     pub direct_io_fds: indexmap::IndexSet<RawFd>,
+    /// Subset of [`Self::open_handles`] opened without read access.
+    ///
+    /// Like [`Self::direct_io_fds`], tracked here for the io_uring shim,
+    /// which only sees a bare `RawFd`: a ring read on such a descriptor
+    /// fails with `EBADF`, as `File::read_at` is refused on the handle.
+    pub write_only_fds: indexmap::IndexSet<RawFd>,
+    /// Subset of [`Self::open_handles`] opened without write access; a ring
+    /// write on such a descriptor fails with `EBADF`.
+    pub read_only_fds: indexmap::IndexSet<RawFd>,
     /// Next file descriptor to assign.
     next_fd: RawFd,
     /// Probability that writes are randomly synced to durable storage (0.0 - 1.0)
@@ -1175,6 +1184,8 @@ impl Fs {
             pending: Vec::new(),
             open_handles: IndexMap::new(),
             direct_io_fds: indexmap::IndexSet::new(),
+            write_only_fds: indexmap::IndexSet::new(),
+            read_only_fds: indexmap::IndexSet::new(),
             next_fd: SIM_FD_BASE,
             sync_probability: config.sync_probability,
             capacity: config.capacity,
